@@ -820,7 +820,7 @@ Lemma runtime_example :
   end.
 Proof.
   split; [|split; [|split; [|split]]].
-  - intros i t. unfold gen_ex. split; [reflexivity|]. split.
+  - intros i t. unfold gen_ex. split; [cbn [doc_ok value_ok]; rewrite wrap64_range; reflexivity|]. split.
     + cbn [doc_leaves_ok leaves_ok]. rewrite wrap64_range. reflexivity.
     + split; [unfold small; vm_compute; reflexivity|]. split; [reflexivity|vm_compute; reflexivity].
   - intros i t j u. reflexivity.
